@@ -18,6 +18,7 @@ import (
 	"google.golang.org/protobuf/reflect/protoregistry"
 	"google.golang.org/protobuf/types/descriptorpb"
 	"google.golang.org/protobuf/types/dynamicpb"
+	"google.golang.org/protobuf/types/known/anypb"
 	_ "google.golang.org/protobuf/types/known/emptypb" // registers google/protobuf/empty.proto
 )
 
@@ -44,10 +45,16 @@ type Node struct {
 
 	// Wrapper: every field is a member of one oneof named "type" (a j5 oneof wrapper message: no label
 	// field, all references single messages); reflected as a OneofSchema whose properties are the members.
-	// Expose (outside the Coq model, oracle-only streams): groups of positions in Refs (FSingle) that form a
-	// proto oneof with (j5.ext.v1.oneof).expose = true, which the reflector registers as a schema of its own.
+	// Expose: groups of consecutive positions in Refs (FSingle) that form a proto oneof with
+	// (j5.ext.v1.oneof).expose = true, which the reflector registers (up front, linked at once) as a schema
+	// of its own, named <Message>_<oneof>; the model name of group gi of node i is OneofName(i, gi).
 	Expose  [][]int `json:"expose,omitempty"`
 	Wrapper bool    `json:"wrapper,omitempty"`
+
+	// Any: the message also has a field `anyf` of type google.protobuf.Any (reflected as an AnyField: no
+	// reference to another schema). Encoding it resolves the inner type with the codec's resolver and runs
+	// a nested encode on the same codec. Only the goroutine rounds of the worker use it.
+	Any bool `json:"any,omitempty"`
 
 	// Bad = k > 0: a field of type google.protobuf.Empty, which the reflector rejects
 	// ("unsupported google type"), is declared after the first k-1 references: the type
@@ -58,9 +65,13 @@ type Node struct {
 // Name is the model's name of node i.
 func Name(i int) int { return i + 1 }
 
-// Rich reports whether the universe uses features outside the Coq model: exposed oneofs.
-// (A oneof wrapper message registers and links its member types exactly like an object
-// with those fields, so it is inside the model.)
+// OneofName is the model's name of the exposed oneof gi of node i.
+func OneofName(i, gi int) int { return 100*(i+1) + gi + 1 }
+
+// Rich reports whether the universe has exposed oneofs. (In the Coq model an exposed oneof is
+// a leaf cell registered before the fields of its message, its members are processed in the
+// message's field loop, and results are regrouped by ConcCorr.regroup. A oneof wrapper message
+// registers and links its member types exactly like an object with those fields.)
 func (u *Universe) Rich() bool {
 	for _, n := range u.Nodes {
 		if len(n.Expose) > 0 {
@@ -82,7 +93,7 @@ type Built struct {
 	U     *Universe
 	Files *protoregistry.Files
 	Msg   map[int]protoreflect.MessageDescriptor
-	ids   map[string]int // j5 full name ("pkg.Name") -> node
+	ids   map[string]int // j5 full name ("pkg.Name") -> model name
 }
 
 func (u *Universe) pkgName(p int) string { return fmt.Sprintf("conc%s.p%d.v1", u.Tag, p) }
@@ -181,6 +192,7 @@ func (u *Universe) Build() (*Built, error) {
 		deps := map[int]bool{}
 		usesExt := false
 		usesStruct := false
+		usesAny := false
 		for i, n := range u.Nodes {
 			if n.Pkg != p {
 				continue
@@ -275,6 +287,15 @@ func (u *Universe) Build() (*Built, error) {
 			if n.Bad == len(n.Refs)+1 {
 				addBad()
 			}
+			if n.Any && !n.Wrapper {
+				md.Field = append(md.Field, &descriptorpb.FieldDescriptorProto{
+					Name: proto.String("anyf"), JsonName: proto.String("anyf"), Number: proto.Int32(800),
+					Type:     descriptorpb.FieldDescriptorProto_TYPE_MESSAGE.Enum(),
+					TypeName: proto.String(".google.protobuf.Any"),
+					Label:    descriptorpb.FieldDescriptorProto_LABEL_OPTIONAL.Enum(),
+				})
+				usesAny = true
+			}
 			fd.MessageType = append(fd.MessageType, md)
 		}
 		var ds []int
@@ -291,6 +312,9 @@ func (u *Universe) Build() (*Built, error) {
 		if usesStruct {
 			fd.Dependency = append(fd.Dependency, "google/protobuf/empty.proto")
 		}
+		if usesAny {
+			fd.Dependency = append(fd.Dependency, "google/protobuf/any.proto")
+		}
 		file, err := protodesc.NewFile(fd, withGlobal{files})
 		if err != nil {
 			return nil, fmt.Errorf("package %d: %w", p, err)
@@ -300,7 +324,10 @@ func (u *Universe) Build() (*Built, error) {
 		}
 	}
 	for i, n := range u.Nodes {
-		b.ids[u.pkgName(n.Pkg)+"."+u.typeName(i)] = i
+		b.ids[u.pkgName(n.Pkg)+"."+u.typeName(i)] = Name(i)
+		for gi := range n.Expose {
+			b.ids[fmt.Sprintf("%s.%s_x%d", u.pkgName(n.Pkg), u.typeName(i), gi)] = OneofName(i, gi)
+		}
 		if n.Kind != KMsg {
 			continue
 		}
@@ -368,8 +395,8 @@ func (t *Tree) Linked() bool {
 }
 
 func (b *Built) id(full string) int {
-	if i, ok := b.ids[full]; ok {
-		return Name(i)
+	if n, ok := b.ids[full]; ok {
+		return n
 	}
 	return 999999
 }
@@ -490,11 +517,15 @@ func (u *Universe) GUnfold(k int, i int) *Tree {
 	return t
 }
 
-// CoqGraph renders the universe as a coq graph term.
+// CoqGraph renders the universe as a coq graph term. A message with exposed oneofs refers
+// first to its oneofs (leaf nodes of their own), then to its field types.
 func (u *Universe) CoqGraph() string {
 	var parts []string
 	for i, n := range u.Nodes {
 		var rs []string
+		for gi := range n.Expose {
+			rs = append(rs, fmt.Sprint(OneofName(i, gi)))
+		}
 		for k, j := range n.Refs {
 			if n.Bad == k+1 {
 				rs = append(rs, "0")
@@ -505,6 +536,26 @@ func (u *Universe) CoqGraph() string {
 			rs = append(rs, "0")
 		}
 		parts = append(parts, fmt.Sprintf("(%d,[%s])", Name(i), strings.Join(rs, ";")))
+		for gi := range n.Expose {
+			parts = append(parts, fmt.Sprintf("(%d,[])", OneofName(i, gi)))
+		}
+	}
+	return "[" + strings.Join(parts, ";") + "]"
+}
+
+// CoqExpo renders the exposed oneofs as a coq term of type ConcCorr.expo:
+// per message, in order of declaration, (oneof name, position of its first member among the fields, number of members).
+func (u *Universe) CoqExpo() string {
+	var parts []string
+	for i, n := range u.Nodes {
+		if len(n.Expose) == 0 {
+			continue
+		}
+		var gs []string
+		for gi, grp := range n.Expose {
+			gs = append(gs, fmt.Sprintf("(%d,%d,%d)", OneofName(i, gi), grp[0], len(grp)))
+		}
+		parts = append(parts, fmt.Sprintf("(%d,[%s])", Name(i), strings.Join(gs, ";")))
 	}
 	return "[" + strings.Join(parts, ";") + "]"
 }
@@ -555,6 +606,24 @@ func (b *Built) Populate(i int, depth int) protoreflect.Message {
 	}
 	return msg
 }
+
+// PopulateWithAny is Populate(i, depth) with the Any field holding a populated message of node target.
+func (b *Built) PopulateWithAny(i, target, depth int) (protoreflect.Message, error) {
+	msg := b.Populate(i, depth)
+	fd := msg.Descriptor().Fields().ByName("anyf")
+	if fd == nil {
+		return msg, nil
+	}
+	inner, err := anypb.New(b.Populate(target, 1).Interface())
+	if err != nil {
+		return nil, err
+	}
+	msg.Set(fd, protoreflect.ValueOfMessage(inner.ProtoReflect()))
+	return msg, nil
+}
+
+// Types resolves the message types of the universe (for codecs that decode Any payloads).
+func (b *Built) Types() *dynamicpb.Types { return dynamicpb.NewTypes(b.Files) }
 
 // New returns an empty message of node i.
 func (b *Built) New(i int) protoreflect.Message { return dynamicpb.NewMessage(b.Msg[i]) }
